@@ -265,7 +265,8 @@ class SimFile:
     reads, read faults, seek/tell, context-manager protocol."""
 
     def __init__(self, data, short=None, fault=None, seek_fault=None,
-                 name='<sim>'):
+                 name='<sim>', cyclic=False):
+        self.cyclic = cyclic
         self.data = data
         self.pos = 0
         self.short = list(short or [])
@@ -303,7 +304,8 @@ class SimFile:
             n = avail
         else:
             n = min(size, avail)
-        if self.short and n > 0:
+        if self.short and n > 0 and (self.cyclic or
+                                     self.reads <= len(self.short)):
             lim = self.short[(self.reads - 1) % len(self.short)]
             if lim:
                 n = max(1, min(n, lim))
